@@ -33,6 +33,9 @@ MetaNames == {"reset", "restore", "Obs", "PrepZeroHeight", "Genesis", "Restart"}
 \* C20 speak about those two steps)
 
 IsMeta(e) == e.name \in MetaNames
+
+\* what the owning module did to context id from inside a callback of this step, successfully
+ReactedOK(id, op) == \E i \in DOMAIN cb' : cb'[i].kind = "react" /\ cb'[i].id = id /\ cb'[i].op = op /\ cb'[i].ok
 Ok(e, n) == e.name = n /\ e.ok
 
 Rid(e) == <<e.rid[1], e.rid[2], e.rid[3], e.rid[4]>>
@@ -299,7 +302,8 @@ Step_C06 ==
             ELSE IF Broke(c)
             THEN /\ Issued = {}
                  /\ bal' = bal
-                 /\ ctx'[e.id].state = "paused"
+                 \* (paused - and then killed, if that is how its module answers the state callback)
+                 /\ ctx'[e.id].state = IF ReactedOK(e.id, "kill") THEN "completed" ELSE "paused"
             ELSE /\ {req'[r].prov : r \in Issued} = Range(E)
                  /\ Cardinality(Issued) = Len(E)
                  /\ \A r \in Issued : req'[r].fee <= c.cap
@@ -367,6 +371,7 @@ Step_C08 ==
 
 Immutable(c) == <<c.svc, c.cons, c.input, c.super, c.rep, c.module>>
 
+
 Step_C09 ==
     LET e == ev' IN
     IF IsMeta(e) THEN TRUE
@@ -385,10 +390,15 @@ Step_C09 ==
             /\ (o.state = "running" /\ n.state = "paused") =>
                   \/ (e.name \in {"Pause", "ModPause"} /\ e.ok /\ onMe /\ o.rep)
                   \/ (e.name = "StartBatch" /\ onMe /\ Broke(o) /\ Issued = {})
+                  \/ (ReactedOK(id, "pause") /\ o.rep)
             /\ (o.state = "paused" /\ n.state = "running") =>
                   (e.name \in {"Start", "ModStart"} /\ e.ok /\ onMe)
             /\ (o.state # "completed" /\ n.state = "completed") =>
-                  (e.name \in {"Kill", "ModKill"} /\ e.ok /\ onMe /\ o.rep)
+                  \/ (e.name \in {"Kill", "ModKill"} /\ e.ok /\ onMe /\ o.rep)
+                  \/ (ReactedOK(id, "kill") /\ o.rep)
+            \* a pause or kill the module made from inside a callback is a pause or kill like any other
+            /\ ReactedOK(id, "pause") => n.state = "paused"
+            /\ ReactedOK(id, "kill") => n.state = "completed"
             /\ n.batch \in {o.batch, o.batch + 1}
             /\ (n.batch = o.batch + 1) =>
                   (e.name = "StartBatch" /\ onMe /\ o.state = "running" /\ n.state = "running")
@@ -607,7 +617,8 @@ Step_C16 ==
            /\ RespsOf(id, b) \cap DOMAIN resp' = {}
            /\ ~\E r \in actId' : r[1] = id /\ r[2] = b
            /\ ~\E a \in actBind' : a[4][1] = id /\ a[4][2] = b
-           /\ (c.state = "completed" \/ fin) <=> id \notin DOMAIN ctx'
+           \* (killed also: by its module, from inside this expiry's response callback)
+           /\ (c.state = "completed" \/ fin \/ ReactedOK(id, "kill")) <=> id \notin DOMAIN ctx'
 
 -----------------------------------------------------------------------------
 (* C18 (the part visible in the lifecycle): a request's id records its context, batch  *)
